@@ -387,3 +387,6 @@ def run(ctx):
     rule_e12(ctx)
     rule_e3(ctx)
     rule_c(ctx)
+    # a spurious error at the very end of a catching iteration is an error at the wrong position too
+    from . import c14
+    c14.rule_sb(ctx)
